@@ -350,3 +350,81 @@ Definition row_mask_of {A} (mask : list bool) (sequences : list (list A)) : list
 (* which np.where a site reaches: explicit row mask (repaired) or column mask `[:, np.newaxis]` (before the repair) *)
 Definition where_by_form (row_form : bool) : list bool -> list (list Z) -> list (list Z) -> result (list (list Z)) :=
   if row_form then where_fixed else where_pinned.
+
+(* ======================================================================================= *)
+(* Round 6 strengthening: the indexed-FASTA backend (bionumpy/io/indexed_fasta.py),         *)
+(* IndexedFasta._get_interval_sequences_fast — the fetch behind                              *)
+(* Genome.from_file(fa).read_sequence()[intervals].  A FASTA file is modelled as its bytes,  *)
+(* the .fai index as (rlen, offset, lenc, lenb) per record.                                   *)
+(* ======================================================================================= *)
+Definition fa_rec := (list Z * list Z * Z)%type.          (* name, sequence, line width the record is wrapped to *)
+Definition fa_name (r : fa_rec) : list Z := fst (fst r).
+Definition fa_seq (r : fa_rec) : list Z := snd (fst r).
+Definition fa_w (r : fa_rec) : Z := snd r.
+(* the sequence lines of a record: every line, the last one included, ends in a line break (10) *)
+Definition fa_body (w : Z) (seq : list Z) : list Z :=
+  concat (map (fun l => l ++ [10]) (chunks_of (Z.to_nat w) seq)).
+Definition fa_record (r : fa_rec) : list Z := 62 :: fa_name r ++ 10 :: fa_body (fa_w r) (fa_seq r).
+(* nl_end = false: the file lacks its final line break *)
+Definition fa_file (recs : list fa_rec) (nl_end : bool) : list Z :=
+  let t := concat (map fa_record recs) in if nl_end then t else removelast t.
+Definition fa_idx := (Z * Z * Z * Z)%type.                 (* rlen, offset, lenc, lenb — one .fai line *)
+(* the standard (samtools faidx) index of such a file: lenc = length of the first line, lenb = lenc + 1 *)
+Fixpoint fa_index_from (pos : Z) (recs : list fa_rec) : list fa_idx :=
+  match recs with
+  | [] => []
+  | r :: rest =>
+      let off := pos + len (fa_name r) + 2 in
+      let lenc := Z.min (fa_w r) (len (fa_seq r)) in
+      (len (fa_seq r), off, lenc, lenc + 1) :: fa_index_from (off + len (fa_body (fa_w r) (fa_seq r))) rest
+  end.
+(* indexed_fasta.py:146-166, one turn of the loop: seek(read_start); read(read_length) (short at end of file);
+   newline_idxs = [lenb*(j+1)-1-start_mod for j in range(n_row)] filtered to < size; np.delete *)
+Definition fa_fetch (file : list Z) (ix : fa_idx) (a b : Z) : list Z :=
+  let '(_, off, lenc, lenb) := ix in
+  let start_row := a / lenc in
+  let start_mod := a mod lenc in
+  let start_offset := start_row * lenb + start_mod in
+  let stop_row := b / lenc in
+  let stop_offset := stop_row * lenb + b mod lenc in
+  let r := firstn (Z.to_nat (stop_offset - start_offset)) (skipn (Z.to_nat (off + start_offset)) file) in
+  let idxs := filter (fun i => i <? len r)
+                     (map (fun j => lenb * (j + 1) - 1 - start_mod) (arange (stop_row - start_row))) in
+  np_delete r idxs.
+Definition iv4 := (Z * Z * Z * Z)%type.                    (* record number, start, stop, strand byte *)
+Definition iv4_strand (iv : iv4) : Z := snd iv.
+Definition fa_fetch_iv (file : list Z) (index : list fa_idx) (iv : iv4) : list Z :=
+  let '(c, a, b, _) := iv in fa_fetch file (nth (Z.to_nat c) index (0, 0, 1, 1)) a b.
+Definition fa_sized (p : list Z * iv4) : bool := let '(_, a, b, _) := snd p in len (fst p) =? b - a.
+(* GenomicSequenceIndexedFasta.extract_intervals: every piece is fetched in the order of the intervals (no state is kept
+   between two turns of the loop or between two calls), written to pre_alloc at the cumulated offsets and cut into rows of
+   stop-start; dna_encode (ACGTN); for stranded intervals np.where(row mask of strand == '+', rows, reverse complement).
+   A piece whose size is not stop-start would leave np.empty bytes in the result: not modelled, distinct value Err 8. *)
+Definition model_fa_call (keys : list (Z * Z))
+           (wh : list bool -> list (list Z) -> list (list Z) -> result (list (list Z)))
+           (file : list Z) (index : list fa_idx) (stranded : bool) (ivs : list iv4) : result (list (list Z)) :=
+  let raw := map (fa_fetch_iv file index) ivs in
+  if negb (forallb fa_sized (combine raw ivs)) then Err 8
+  else
+    let e := enc_of 2 in
+    match encode e (concat raw) with
+    | Err c => Err c
+    | Ok codes =>
+        let lens := map len raw in
+        let rel := split_lens codes lens in
+        if stranded then
+          match revcomp_codes keys e codes lens with
+          | Err c => Err c
+          | Ok flat =>
+              match wh (map (fun iv => iv4_strand iv =? 43) ivs) rel (split_lens flat lens) with
+              | Err c => Err c
+              | Ok rows => Ok (map (decode e) rows)
+              end
+          end
+        else Ok (map (decode e) rel)
+    end.
+(* Spec: what such a call must return for one interval *)
+Definition fa_want (recs : list fa_rec) (stranded : bool) (iv : iv4) : list Z :=
+  let '(c, a, b, s) := iv in
+  let ref := map (canon 2) (fa_seq (nth (Z.to_nat c) recs ([], [], 1))) in
+  if stranded then spec_stranded ref (a, b, s) else slice a b ref.
